@@ -10,10 +10,12 @@ import (
 	"strings"
 	"sync"
 	"sync/atomic"
+	"syscall"
 	"time"
 
 	seccomp "github.com/elastic/go-seccomp-bpf"
 
+	"verif/harness/engine"
 	"verif/harness/evid"
 	"verif/harness/instr"
 )
@@ -430,7 +432,7 @@ func checkC13(tier, replay string) int {
 	ctx.Cov["compilations_compared_across_process_states"] = stateCompiles
 	ctx.Cov["distinct_text_results_seen"] = distinctTexts
 	ctx.Cov["race_pass_runs"] = raceRuns
-	ctx.Cov["rule"] = "the current sources of the library packages are rewritten (a scheduling point before every statement; functions that iterate maps run as atomic steps), compiled with go build -overlay and run under a cooperative scheduler; for each scenario (two copies sharing backing arrays, two architectures, Assemble||Dump, Assemble||GetInfo, Assemble||text conversions, same value twice, three threads) every schedule with at most 1 preemption (2 for the small and the tiny shared-copies scenarios; thorough: 2 for every two-thread scenario and 3 for the tiny one) is executed on the real code; oracle per schedule: each call returns what it returns alone and every input policy incl. spare slice capacity is bit-identical; a reported schedule is replayed twice in a fresh process; plus all operation histories of length <= 4 over 9 operations (incl. compiling two values that share one Syscalls slice for two architectures, and modifying a policy value that was compiled before), text forms over 512 calls in fresh processes, compilations of the same policy before and after the process state changed in fresh children (a filter loaded on the compiling thread only / on every thread; one that answers EPERM to seccomp(2) itself; as root and as uid 65534; compiled on the loading thread and on another one): all results of one history must be identical, and a separate free-running -race pass of the same bodies"
+	ctx.Cov["rule"] = "the current sources of the library packages are rewritten (a scheduling point before every statement; functions that iterate maps run as atomic steps), compiled with go build -overlay and run under a cooperative scheduler; for each scenario (two copies sharing backing arrays, two architectures, Assemble||Dump, Assemble||GetInfo, Assemble||text conversions, same value twice, three threads) every schedule with at most 1 preemption (2 for the small and the tiny shared-copies scenarios; thorough: 2 for every two-thread scenario and 3 for the tiny one) is executed on the real code; oracle per schedule: each call returns what it returns alone and every input policy incl. spare slice capacity is bit-identical; a reported schedule is replayed twice in a fresh process; plus all operation histories of length <= 4 over 9 operations (incl. compiling two values that share one Syscalls slice for two architectures, and modifying a policy value that was compiled before), text forms over 512 calls in fresh processes, compilations of the same policy (five policies, one with every action as default / group action) before and after the process state changed in fresh children, also with the state changed before the first compilation of the process (a filter loaded on the compiling thread only / on every thread; one that answers EPERM to seccomp(2) itself; as root and as uid 65534; compiled on the loading thread and on another one): all results must equal the compilation in a process without filters, and a separate free-running -race pass of the same bodies"
 	ctx.Sample(map[string]any{"scenario": "shared-copies", "threads": []string{"Assemble(p)", "Assemble(copy of p sharing Syscalls/Names/Conditions arrays)"}, "schedule_example": "thread 0 runs to filter.go:2xx, preempted, thread 1 runs to completion, thread 0 resumes"})
 	ctx.Assumptions = []string{"scheduling points at statement granularity; unsynchronised accesses inside one statement are covered by the separate -race pass", "map iteration order cannot be controlled; it is covered by repetition across processes (miss probability < 1e-14 per process for the 2-key flag map)"}
 	return ctx.Finish()
@@ -589,16 +591,43 @@ func c13ProcessState(ctx *evid.Ctx) (hists, compiles int64) {
 		kind, state string
 		tsync       uint32
 		priv        bool
+		stateFirst  bool // the process state is changed before anything was compiled in that process
 	}
 	var jobs []job
-	for _, k := range []string{"A", "B", "perm-log", "perm-twoallow"} {
+	for _, k := range []string{"A", "B", "perm-log", "perm-twoallow", "actions"} {
 		for _, st := range []string{"A", "denysec"} {
 			for _, ts := range []uint32{0, 1} {
 				for _, priv := range []bool{true, false} {
-					jobs = append(jobs, job{k, st, ts, priv})
+					jobs = append(jobs, job{k, st, ts, priv, false}, job{k, st, ts, priv, true})
 				}
 			}
 		}
+	}
+	show := func(r histResult) string {
+		if r.Err != nil {
+			return "error: " + *r.Err
+		}
+		return fmt.Sprintf("%d instructions, hash %s", r.CompLen, r.Compiled)
+	}
+	// what the policy compiles to in this process, which has no filter and has not loaded or probed anything
+	pristine := map[string]string{}
+	for _, j := range jobs {
+		if _, ok := pristine[j.kind]; ok {
+			continue
+		}
+		cp := *kindPolicy(j.kind)
+		var r histResult
+		if insts, err := cp.Assemble(); err != nil {
+			e := err.Error()
+			r.Err = &e
+		} else if raw, err := engine.Raw(insts); err == nil {
+			sf := make([]syscall.SockFilter, len(raw))
+			for i, x := range raw {
+				sf[i] = syscall.SockFilter{Code: x.Op, Jt: x.Jt, Jf: x.Jf, K: x.K}
+			}
+			r.Compiled, r.CompLen = hashSock(sf), len(sf)
+		}
+		pristine[j.kind] = show(r)
 	}
 	parallelFor(len(jobs), func(i int) {
 		j := jobs[i]
@@ -606,34 +635,33 @@ func c13ProcessState(ctx *evid.Ctx) (hists, compiles int64) {
 			{Op: "compile", T: 0, Kind: j.kind}, {Op: "compile", T: 1, Kind: j.kind},
 			{Op: "load", T: 0, Kind: j.state, Flags: j.tsync, NNP: true},
 			{Op: "compile", T: 0, Kind: j.kind}, {Op: "compile", T: 1, Kind: j.kind}, {Op: "compile", T: 0, Kind: j.kind}}}
+		loadAt := 2
+		if j.stateFirst {
+			sc.Ops = sc.Ops[2:]
+			loadAt = 0
+		}
 		hr := runHist(sc, !j.priv)
 		if hr.TimedOut || len(hr.Results) != len(sc.Ops) {
 			ctx.Capped("a process-state history child did not complete")
 			return
 		}
 		atomic.AddInt64(&hists, 1)
-		if hr.Results[2].Err != nil {
-			ctx.Capped("the state-changing load of a process-state history failed: " + *hr.Results[2].Err)
+		if hr.Results[loadAt].Err != nil {
+			ctx.Capped("the state-changing load of a process-state history failed: " + *hr.Results[loadAt].Err)
 			return
 		}
-		first := hr.Results[0]
-		show := func(r histResult) string {
-			if r.Err != nil {
-				return "error: " + *r.Err
-			}
-			return fmt.Sprintf("%d instructions, hash %s", r.CompLen, r.Compiled)
-		}
+		want := pristine[j.kind]
 		for k, r := range hr.Results {
 			if r.Op != "compile" {
 				continue
 			}
 			atomic.AddInt64(&compiles, 1)
-			if show(r) != show(first) || first.Err != nil {
+			if show(r) != want || r.Err != nil {
 				where := "before"
-				if k > 2 {
+				if k > loadAt {
 					where = "after"
 				}
-				ctx.Violation("C13:depends-on-process-state:"+j.state, fmt.Sprintf("compiling policy %s on thread T%d %s a %s filter was loaded (thread-sync=%v, privileged=%v) gives %s; the first compilation in the same process gave %s", j.kind, r.T, where, j.state, j.tsync == 1, j.priv, show(r), show(first)), map[string]any{"process_state_history": true, "kind": j.kind, "state": j.state, "tsync": j.tsync, "privileged": j.priv})
+				ctx.Violation("C13:depends-on-process-state:"+j.state, fmt.Sprintf("compiling policy %s on thread T%d %s a %s filter was loaded (thread-sync=%v, privileged=%v, first compilation of the process after the load: %v) gives %s; in a process without filters it gives %s", j.kind, r.T, where, j.state, j.tsync == 1, j.priv, j.stateFirst, show(r), want), map[string]any{"process_state_history": true, "kind": j.kind, "state": j.state, "tsync": j.tsync, "privileged": j.priv, "state_first": j.stateFirst})
 				return
 			}
 		}
